@@ -62,7 +62,7 @@ def twin_replay(seed):
 
 def twin_fill(seed, kind):
     if kind == "data":
-        base = scen.data_session(seed, n_steps=60, with_close=seed % 2 == 0, updates=True)
+        base = scen.data_session(seed, n_steps=80, with_close=seed % 4 == 0, updates=True, tiny=seed % 2 == 0, p_rel=0.85)
     elif kind == "hs":
         base = scen.handshake_session(seed, hostile=False, rotations=seed % 2 == 0)
     else:
